@@ -159,8 +159,9 @@ check("C10", "other",
 NA_LIST = [
     ("C12", "Shell-state carry-over is implemented by a bash script; no encoding of bash semantics is available here."),
     ("C18", "File-system / process-exit effects (TempDir Drop, directory uniqueness); outside any encoding available here."),
+    ("C20", "commands::test::Args::run is a 330-line function interleaving file discovery, progress bars, executors, renderers and counting; only main's three-way exit mapping is a loop-free region — too small a part of the property to claim it."),
 ]
-PENDING = ["C04", "C05", "C06", "C08", "C09", "C10", "C11", "C13", "C14", "C15", "C16", "C17", "C19", "C20"]
+PENDING = []
 
 
 def main():
